@@ -73,6 +73,28 @@ Never use `git stash` (it is shared between all worktrees of /repo and other age
 between changed and unchanged state with `git diff > SEED/patch.diff; git checkout -- .; ...; git apply SEED/patch.diff`.
 When you wait for a build, run ninja synchronously; do NOT write wait loops with pgrep (they match other agents' shells).
 """,
+ 7: """## This is the SEVENTH seeding round: aim for what the earlier rounds did not try
+
+Earlier rounds already used these mechanisms for this property -- do not repeat them (pick a different function / code path):
+%(used)s
+This time the change must belong to one of these classes (say which one in the README):
+ (r) INTERACTION OF TWO FEATURES that each work alone: wrong only when two options / modes / input properties are combined
+     (each of them alone, and the default, stay right);
+ (s) CONVENTION AT A MODULE BOUNDARY: units (nm / Angstrom / bohr, degrees / radians, kJ/mol / eV / hartree), 0- vs 1-based
+     numbering, row- vs column-major, inclusive vs exclusive end, sign or order convention of a pair -- converted twice, not
+     at all, or the wrong way round on ONE path between two modules;
+ (t) LIFETIME / ALIASING: a reference, pointer, iterator, string_view or Eigen expression that outlives or aliases what it
+     refers to (container growth, erase while iterating, returning a reference to a temporary, a = f(a) aliasing, use
+     after move) and gives wrong results only from a certain size on or for a particular argument pattern;
+ (u) INNER-LOOP BOUND UNDER A SECONDARY CONDITION: the first/last element of an inner loop is skipped or visited twice only
+     when a second condition holds (an empty neighbour, equal keys, a wrap-around, the last block being shorter);
+ (v) SILENT FALLBACK: a situation that must be reported (or handled exactly) now silently takes a default, the first of
+     several matches, a clamped value or the previous value.
+Never use `git stash` (it is shared between all worktrees of /repo and other agents are working concurrently); switch
+between changed and unchanged state with `git diff > SEED/patch.diff; git checkout -- .; ...; git apply SEED/patch.diff`.
+When you wait for a build, run ninja synchronously; do NOT write wait loops with pgrep (they match other agents' shells).
+The machine is shared: build with `nice ninja -j4`.
+""",
 }
 
 
